@@ -59,7 +59,7 @@ PROPS = {
     "C19": dict(suites=[("hist", 100, 4, 1500, 16), ("pairs", 1, 4, 2, 16), ("regs", 1, 4, 2, 8), ("kin", 40, 4, 1000, 16)], corr=["insert", "delete", "constraint", "render"], oracles=["C19", "C08", "C09"]),
 }
 
-FACTS = {"C19": ["error_formats", "conflict_list_format"], "C13": ["builtin_impls", "builtin_checks", "builtin_registrations"], "C11": ["invalid_param_chars"], "C03": ["search_kind_order"],
+FACTS = {"C05": ["nodes_cache_ops"], "C19": ["error_formats", "conflict_list_format"], "C13": ["builtin_impls", "builtin_checks", "builtin_registrations"], "C11": ["invalid_param_chars"], "C03": ["search_kind_order"],
          "C15": ["display_kind_order"], "C18": ["interior_mutability"], "C17": ["oci_routes", "oci_name_pattern"], "C07": ["panic_sites"]}
 # Tripwires: syntactic facts about the source that no theorem needs (they say nothing about the model) and that a
 # behaviour-preserving rewrite changes: the order in which `Node::search` / `Display` mention the child kinds, and the per-file
@@ -67,6 +67,8 @@ FACTS = {"C19": ["error_formats", "conflict_list_format"], "C13": ["builtin_impl
 # run its suites once more, larger and with another seed (DESIGN 12.9), and the evidence records it.
 TRIPWIRES = {
     "C03": {"search_kind_order": [0, 1, 2, 3, 4, 5, 6]},
+    "C05": {"nodes_cache_ops": {"new": "false", "push": "false", "remove": "keep", "iter_mut": "false", "sort": "true+early-return",
+                                "default": "false", "index_mut": "keep"}},
     "C15": {"display_kind_order": [0, 1, 2, 3, 4, 5, 6]},
     "C07": {"panic_sites": [["src/parser.rs", 11, 0, 14], ["src/router.rs", 0, 17, 0], ["src/node/insert.rs", 8, 0, 0], ["src/node/find.rs", 3, 0, 0],
                             ["src/node/delete.rs", 6, 0, 0], ["src/node/search.rs", 21, 1, 2], ["src/node/optimize.rs", 0, 0, 0], ["src/node/display.rs", 0, 0, 7],
